@@ -91,12 +91,13 @@ Example C14_dirty_state_exists :
   nn (h_st (r_dirty r)) = 8%N /\ nn (c_st (r_chain r)) = 7%N.
 Proof. vm_compute. repeat split; reflexivity. Qed.
 
-(* The same holds for an execution whose branch is dropped although the handler succeeded (simulation, CheckTx, an early
-   message of a transaction whose later message failed): the chain reached by a history with such executions
-   interleaved is the chain reached by the delivered steps alone, and later results do not see them. *)
-Theorem C14_discarded_executions_leave_no_trace : forall e c h1 s h2,
-  run_modes e c (h1 ++ (Discarded, s) :: h2) = run_modes e c (h1 ++ h2) /\
-  trace e (run_modes e c (h1 ++ [(Discarded, s)])) (delivered h2) = trace e (run_modes e c h1) (delivered h2).
+(* The same holds for executions whose branch is dropped although the handlers succeeded (simulation, CheckTx, the early
+   messages of a transaction whose later message failed - any number of messages sharing one branch): the chain reached
+   by a history with such branches interleaved is the chain reached by the delivered steps alone, and later results do
+   not see them. *)
+Theorem C14_discarded_executions_leave_no_trace : forall e c h1 b h2,
+  run_modes e c (h1 ++ Dropped b :: h2) = run_modes e c (h1 ++ h2) /\
+  trace e (run_modes e c (h1 ++ [Dropped b])) (delivered h2) = trace e (run_modes e c h1) (delivered h2).
 Proof. intros. split; [apply discarded_step_is_invisible|apply later_results_ignore_discarded]. Qed.
 
 Print Assumptions C14_deposit_ok_implies_all.
